@@ -25,9 +25,19 @@ impl From<SA> for A { fn from(s: SA) -> A { unsafe { CALLS[0] += 1; } A(s.0 ^ 0x
 impl From<SB> for B { fn from(s: SB) -> B { unsafe { CALLS[1] += 1; } B(s.0.wrapping_add(7)) } }
 impl From<A> for TA { fn from(s: A) -> TA { unsafe { CALLS[2] += 1; } TA(s.0 ^ 0x0ff0) } }
 impl From<B> for TB { fn from(s: B) -> TB { unsafe { CALLS[3] += 1; } TB(s.0.wrapping_sub(3)) } }
+
+/// `has_from::<T, S>()`: does `T: From<S>` hold?  Decided by rustc's trait resolution (autoref specialisation); the harness
+/// only evaluates the answer.  Used for the "no impl for skipped / unit / un-annotated variants" clause.
+pub struct Wrap<T, S>(pub core::marker::PhantomData<(T, S)>);
+pub trait ViaFrom { fn implements(&self) -> bool; }
+impl<T: From<S>, S> ViaFrom for Wrap<T, S> { fn implements(&self) -> bool { true } }
+pub trait Fallback { fn implements(&self) -> bool; }
+impl<T, S> Fallback for &Wrap<T, S> { fn implements(&self) -> bool { false } }
+#[macro_export]
+macro_rules! has_from { ($t:ty, $s:ty) => { (&$crate::support::Wrap::<$t, $s>(core::marker::PhantomData)).implements() }; }
 """
 
-HEAD = "#![allow(dead_code, unused, clippy::all)]\nuse crate::support::*;\nuse core::ptr;\n\n"
+HEAD = "#![allow(dead_code, unused, clippy::all)]\nuse crate::support::*;\nuse crate::has_from;\nuse core::ptr;\n\n"
 NAMES = ["x", "y", "z"]
 FIELD_SETS = {0: [], 1: ["A"], 2: ["A", "B"], 3: ["A", "B", "A"]}
 SAME_TYPED = {2: ["A", "A"], 3: ["B", "A", "A"]}
@@ -280,6 +290,26 @@ def enum_shapes():
         assert!(matches!(E::from(a), E::X(p) if p == a));
         assert!(matches!(E::from(b), E::Y(p) if p == b));
 """, "skipped / ignored variants are never the target of a conversion"))
+    out.append(enum_shape("explicit_late", "    Auto(B),\n    AutoPair(B, A),\n    #[from]\n    X(A),\n    Unit,\n    AutoNamed { x: TA },",
+                          """        let a = A(kani::any());
+        assert!(matches!(E::from(a), E::X(p) if p == a));
+        // absence of impls: rustc's trait resolution, evaluated here
+        assert!(has_from!(E, A), "From<A> must exist for the annotated variant");
+        assert!(!has_from!(E, B), "an un-annotated variant declared BEFORE the first #[from] variant must get no impl");
+        assert!(!has_from!(E, (B, A)), "an un-annotated variant declared BEFORE the first #[from] variant must get no impl");
+        assert!(!has_from!(E, TA), "an un-annotated variant declared AFTER a #[from] variant must get no impl");
+        assert!(!has_from!(E, ()), "unit variants get no impl");
+""", "once any variant carries #[from], no other variant gets an impl, wherever it is declared (impl absence decided by rustc's trait resolution)"))
+    out.append(enum_shape("explicit_same_type_first", "    NotDerived(A),\n    #[from]\n    X(A),\n    AlsoNot(A),",
+                          """        let a = A(kani::any());
+        assert!(matches!(E::from(a), E::X(p) if p == a), "From<A> must build the annotated variant (an extra impl for a twin would not even compile)");
+""", "an un-annotated twin of the same type before and after the annotated variant gets no (conflicting) impl"))
+    out.append(enum_shape("skip_absent", "    X(A),\n    #[from(skip)]\n    Skipped(B),\n    #[from(ignore)]\n    Ignored(TA, TB),\n    U,\n    E0(),\n    N0 {},",
+                          """        let a = A(kani::any());
+        assert!(matches!(E::from(a), E::X(p) if p == a));
+        assert!(!has_from!(E, B) && !has_from!(E, (TA, TB)), "skipped / ignored variants get no impl");
+        assert!(!has_from!(E, ()), "unit and empty variants get no impl");
+""", "skipped, ignored, unit and empty variants get no impl (decided by rustc's trait resolution)"))
     out.append(enum_shape("typed_forward", "    #[from(SA, A)]\n    X(A),\n    #[from(forward)]\n    Y { x: B },\n    #[from((SA, SB))]\n    P(A, B),",
                           """        let sa = SA(kani::any()); let sb = SB(kani::any()); let a = A(kani::any());
         let c0 = calls();
@@ -323,6 +353,8 @@ DESCRIPTION = {
             "forwarded variants",
     "symbolic": "every field / component value (free u16), the value written through &mut",
     "oracle": "the components themselves, pointer identity with the fields, the field types' own From impls (call-counted)",
-    "not_covered": ["'the set of generated impls is exactly the documented one' - absence of an impl is a trait-resolution fact "
-                    "decided by rustc, not by a solver (presence is implied: the harness calls every documented impl)"],
+    "not_covered": ["'the set of generated impls is exactly the documented one': presence is implied (the harness calls every documented "
+                    "impl); absence is a trait-resolution fact decided by rustc, not by a solver - the enum shapes explicit_late, "
+                    "explicit_same_type_first and skip_absent evaluate rustc's answer (autoref probe, or a conflicting-impl compile error) "
+                    "as concrete assertions, for those shapes only"],
 }
